@@ -185,6 +185,9 @@ def basin_definition_copy(src_h5file, dst_h5file, features_iter):
         # Load the basin information
         basin_dicts = RTDC_HDF5.basin_get_dicts_from_h5file(src_h5file)
         for bn in basin_dicts:
+            if bn.get("key") != b_key:
+                # only look at the basin definition we are copying
+                continue
             if bn["type"] == "internal":
                 # Make sure we define the internal features selected
                 feat_used = [f for f in bn["features"] if f in features_iter]
